@@ -109,6 +109,12 @@ func ZZ_C18_Session() {
 			sfx = "/" + style + "/with-undo"
 		}
 	}
+	// C-\ is stored as "\C-\" with a bare backslash (finding shared with C19 and the unit check)
+	for _, c := range K {
+		if c == 0x1c {
+			sfx = "/" + style + "/after-control-backslash"
+		}
+	}
 	// do-lowercase-version (ESC + capital letter) feeds the lower-case sequence back as keys
 	for i, c := range K {
 		if style != "vi" && c == 0x1b && i+1 < k && K[i+1] >= 'A' && K[i+1] <= 'Z' {
